@@ -8,6 +8,8 @@ The round trip depends on a handful of constants and index offsets; each is an o
               written;
   base        the sparse exporter writes subscripts + 1, the sparse importer subtracts index_base, and the
               importer's default index_base is 1;
+  stateless   no writer / reader touches a mutable module-level object, a `global`, or a memoising decorator -- what one
+              call writes depends on its arguments only;
   layout      the dense exporter writes the transposed data array (C order of the transpose = F order of the
               tensor), the importers rebuild matrices with a C-order reshape (no order= other than 'C').
 
@@ -204,6 +206,37 @@ def obligations(index: Index):
                     if kw.arg == "order" and not (isinstance(kw.value, ast.Constant) and kw.value.value == "C"):
                         bad.append(f"L{n.lineno}: {n.func.attr}(order={ast.unparse(kw.value)}) changes the order in which entries are written")
     add(q, "entries-written-in-C-order-of-the-given-array", fi is not None and not bad, "; ".join(bad), fi.node.lineno if fi else None, missing=fi is None)
+
+    # ---- no state carried between calls: the writers / readers use no mutable module-level object and no `global`
+    import os
+    for modfile, prefix in (("pyttb/export_data.py", EXP), ("pyttb/import_data.py", IMP)):
+        tree = ast.parse(open(os.path.join(index.repo, modfile)).read())
+        mutable = set()
+        for n in tree.body:
+            tgt = None
+            if isinstance(n, ast.Assign) and len(n.targets) == 1 and isinstance(n.targets[0], ast.Name):
+                tgt, val = n.targets[0].id, n.value
+            elif isinstance(n, ast.AnnAssign) and isinstance(n.target, ast.Name) and n.value is not None:
+                tgt, val = n.target.id, n.value
+            if tgt is None:
+                continue
+            if isinstance(val, (ast.Dict, ast.List, ast.Set, ast.ListComp, ast.DictComp, ast.SetComp)) or (
+                    isinstance(val, ast.Call) and ast.unparse(val.func).split(".")[-1] in ("dict", "list", "set", "defaultdict", "OrderedDict", "lru_cache", "cache")):
+                mutable.add(tgt)
+        for n in tree.body:
+            if not isinstance(n, ast.FunctionDef):
+                continue
+            q = prefix + n.name
+            bad = []
+            for d in n.decorator_list:
+                if ast.unparse(d).split("(")[0].split(".")[-1] in ("lru_cache", "cache", "cached"):
+                    bad.append(f"L{d.lineno}: results are memoised by @{ast.unparse(d)}")
+            for x in ast.walk(n):
+                if isinstance(x, (ast.Global, ast.Nonlocal)):
+                    bad.append(f"L{x.lineno}: `{'global' if isinstance(x, ast.Global) else 'nonlocal'} {', '.join(x.names)}`")
+                elif isinstance(x, ast.Name) and x.id in mutable:
+                    bad.append(f"L{x.lineno}: uses the module-level mutable object `{x.id}`")
+            add(q, "no-state-kept-between-calls", not bad, "; ".join(sorted(set(bad))), n.lineno)
 
     dt = time.time() - t0
     for o in out:
